@@ -6,8 +6,11 @@ Oracle: a Python twin of the DOCUMENTS (doc/pygopherd.txt, doc/standards/gopherm
 url.txt) — independent of the model and of the code — against the real entries and
 against what every protocol renders."""
 import html
+import io
 import posixpath
 import re
+import urllib.parse
+import zipfile
 
 from common import Check, coq_eval, coq_str, coq_bool, coq_opt, coq_list, impl_run, impl_run_parallel
 import gen
@@ -102,7 +105,12 @@ TYPES = [b"0", b"1", b"1", b"0", b"7", b"9", b"h", b"I", b"g", b"s", b"i", b"5",
 HOSTS = [b"remote.example.org", b"10.1.2.3", b"gopher.floodgap.com", b"(NULL)", b"h\xc3\xb6st.example", b"error.host"]
 PORTS = [b"70", b"7070", b"0", b"007", b"65535", b"1", b"105"]
 URLS = [b"URL:http://example.org/", b"/URL:http://example.org/a?b=c", b"URL:ftp://ftp.example.org/pub/",
-        b"URL:mailto:someone@example.org", b"URL:https://example.org/x%20y"]
+        b"URL:mailto:someone@example.org", b"URL:https://example.org/x%20y", b"/URL:https://example.org/",
+        b"URL:telnet://bbs.example.org:23/", b"/URL:mailto:admin@example.org", b"URL:news:comp.infosystems.gopher",
+        b"/URL:tel:+15551234567", b"URL:xmpp:room@conference.example.org", b"URL:sms:+15551234567", b"/URL:news:alt.test",
+        b"/URL:ftp://ftp.example.org/"]
+GEN_PREFIX = [b""]      # selector of the archive when the gophermaps are generated for the inside of a ZIP file
+ZIPSEL = "/T.zip"
 # every character str.isspace() accepts, except LF (ends the line) and TAB (separates fields), plus a few combinations
 PAD = [chr(c).encode("utf-8") for c in range(0x3001) if chr(c).isspace() and c not in (9, 10)] + [b"  ", b" \r", b"\r", b" \x0b "]
 
@@ -134,6 +142,32 @@ def tree_for(maps):
     return tree
 
 
+ZHANDLERS = ("[url.HTMLURLHandler, gophermap.BuckGophermapHandler, mbox.MaildirFolderHandler, mbox.MaildirMessageHandler, "
+             "UMN.UMNDirHandler, html.HTMLFileTitleHandler, mbox.MBoxMessageHandler, mbox.MBoxFolderHandler, "
+             "ZIP.ZIPHandler, file.FileHandler]")
+ZCONFIG = dict(CONFIG, **{"handlers.HandlerMultiplexer": {"handlers": ZHANDLERS}, "handlers.ZIP.ZIPHandler": {"enabled": "true"}})
+
+
+def zip_tree(maps):
+    """the same content as tree_for(maps), packed into T.zip (names are UTF-8: a ZIP cannot be written with
+    undecodable names through zipfile; that is C16's subject), next to a few real files of the surrounding site"""
+    buf = io.BytesIO()
+    members = {""}
+    with zipfile.ZipFile(buf, "w", zipfile.ZIP_DEFLATED) as zf:
+        for e in tree_for(maps):
+            if e.get("kind", "file") != "file" or "\xae" in e["path"]:
+                continue
+            name = e["path"].encode("latin-1").decode("utf-8")
+            zf.writestr(zipfile.ZipInfo(name, date_time=(2023, 11, 14, 12, 0, 0)), e["data"].encode("latin-1"))
+            parts = name.split("/")
+            for k in range(1, len(parts) + 1):
+                members.add("/".join(parts[:k]))
+    tree = [{"path": "T.zip", "data": lat(buf.getvalue()), "mtime": 1_700_000_000},
+            {"path": "a.txt", "data": "alpha\n", "mtime": 1_700_000_000},
+            {"path": "sub/s.txt", "data": "sierra\n", "mtime": 1_700_000_000}]
+    return tree, sorted(members)
+
+
 def existing_selectors(tree):
     ex = {""}
     for e in tree:
@@ -152,6 +186,10 @@ def selector_choices(depth):
     abs_ok = [b"/", b"/d1", b"/d1/a.txt", b"/d1/d2/sub/s.txt", b"/a.txt", b"/d1/d2/d3/", b"/d1/d2/x.gophermap",
               b"/d1/\xae.txt", b"/sub"]
     abs_no = [b"/nothing", b"/d1/none.txt", b"/x", b"/d9/a.txt"]
+    if GEN_PREFIX[0]:
+        # inside an archive: absolute selectors of the archive's own content, and a few of the site around it
+        abs_ok = [GEN_PREFIX[0] + a if a != b"/" else GEN_PREFIX[0] for a in abs_ok] + [b"/", b"/a.txt", b"/sub/s.txt"]
+        abs_no = [GEN_PREFIX[0] + a for a in abs_no] + [b"/d1/a.txt", b"/nothing"]
     return rel_ok, rel_no, abs_ok, abs_no
 
 
@@ -352,18 +390,18 @@ def parse_gopher_menu(body):
     return items
 
 
-def descriptions(proto, out):
-    """response bytes -> (list of descriptions or None, raw gopher items or None)"""
+def rendered_items(proto, out):
+    """response bytes -> (list of (description, link target or None) or None, raw gopher items or None)"""
     try:
         if proto in ("gopher", "sgopher"):
             items = parse_gopher_menu(u(out))
-            return (None if items is None else [i[1] for i in items]), items
+            return (None if items is None else [(i[1], None) for i in items]), items
         if proto in ("gopherplus", "sgopherplus"):
             m = re.match(rb"\+-?\d+\r\n", out)
             if not m:
                 return None, None
             items = parse_gopher_menu(u(out[m.end():]))
-            return (None if items is None else [i[1] for i in items]), items
+            return (None if items is None else [(i[1], None) for i in items]), items
         if proto in ("http", "https"):
             head, sep, body = out.partition(b"\r\n\r\n")
             if not sep or not head.startswith(b"HTTP/1.0 200"):
@@ -374,7 +412,8 @@ def descriptions(proto, out):
                 m = re.search(r"<TT>(.*?)</TT>", r, re.S)
                 if not m:
                     return None, None
-                ds.append(html.unescape(m.group(1)))
+                t = re.search(r'<A HREF="([^"]*)">', r, re.S) or re.search(r'<FORM METHOD="GET" ACTION="([^"]*)">', r, re.S)
+                ds.append((html.unescape(m.group(1)), html.unescape(t.group(1)) if t else None))
             if len(rows) != u(body).count("<TR>"):
                 return None, None
             return ds, None
@@ -391,9 +430,12 @@ def descriptions(proto, out):
             ds = []
             for c in chunks[:-1]:
                 if c.startswith('  <input name="sr'):
-                    continue                                        # the form of a type-7 item
-                m = re.fullmatch(r'(?:. )?<a (?:accesskey="[^"]*" )?href="[^"]*">(.*)</a>', c, re.S)
-                ds.append(html.unescape(m.group(1) if m else c))
+                    g = re.search(r'<go method="get" href="([^"]*)">', c)          # the form of a type-7 item
+                    if ds and g:
+                        ds[-1] = (ds[-1][0], html.unescape(g.group(1)))
+                    continue
+                m = re.fullmatch(r'(?:. )?<a (?:accesskey="[^"]*" )?href="([^"]*)">(.*)</a>', c, re.S)
+                ds.append((html.unescape(m.group(2)), html.unescape(m.group(1))) if m else (html.unescape(c), None))
             return ds, None
         if proto in ("gemini", "spartan"):
             head, sep, body = out.partition(b"\r\n")
@@ -406,13 +448,56 @@ def descriptions(proto, out):
             ds = []
             for ln in t.split("\n")[:-1]:
                 if ln.startswith("=> ") or ln.startswith("=: "):
-                    ds.append(ln[3:].partition(" ")[2])
+                    url, _, desc = ln[3:].partition(" ")
+                    ds.append((desc, url))
                 else:
-                    ds.append(ln)
+                    ds.append((ln, None))
             return ds, None
     except (ValueError, UnicodeDecodeError):
         return None, None
     raise ValueError(proto)
+
+
+def descriptions(proto, out):
+    its, items = rendered_items(proto, out)
+    return (None if its is None else [d for d, _ in its]), items
+
+
+def target_problem(proto, want, target):
+    """Does the rendered link target denote what the documents say the gophermap line points to?
+    want = (type, description, selector, host, port) of the documented reading.  Returns None or a reason.
+      * URL: selector (url.txt, pygopherd.txt URL.HTMLURLHANDLER): the URL after "URL:";
+      * this server (no host, no port): the path, percent-decoded, is the selector;
+      * another host and/or port: a gopher:// URL naming host, port, type and selector."""
+    typ, desc, sel, host, port = want
+    if typ == "i" or proto in ("gopher", "sgopher", "gopherplus", "sgopherplus"):
+        return None                     # informational item; Gopher menus carry selector/host/port themselves
+    m = re.match(r"/?URL:(.*)$", sel, re.S)
+    if m:
+        if not m.group(1):
+            return None
+        return None if target == m.group(1) else "URL: selector must link to the URL it carries"
+    if target is None:
+        return "no link target rendered"
+    if host is None and port is None:
+        t = target
+        if proto == "wap":
+            if not t.startswith("/wap"):
+                return "local link outside the WAP prefix"
+            t = t[4:]
+        if proto == "gemini" and typ == "7":
+            if not t.startswith("/GEMINI-QUERY"):
+                return "search item without the query prefix"
+            t = t[len("/GEMINI-QUERY"):]
+        got = urllib.parse.unquote(t, errors="surrogateescape")
+        return None if got == sel else "local link must lead to the entry's selector"
+    if host is None and port == 0:
+        return None                     # "port 0 on this server" denotes nothing that could be followed
+    prefix = "gopher://%s:%d/" % (host if host is not None else SRV, port if port is not None else PORT)
+    if not target.startswith(prefix):
+        return "remote link must be a gopher:// URL naming the host and port"
+    got = urllib.parse.unquote(target[len(prefix):], errors="surrogateescape")
+    return None if got == typ + sel else "remote link must name type and selector"
 
 
 def as_rendered(proto, name):
@@ -752,8 +837,38 @@ def run(tier):
                         reqs.append({"data": gen.lat(data), "tls": tls})
                         rmeta.append((mi, proto, data, tls))
             worlds.append({"op": "gm_world", "tree": tree, "config": CONFIG, "maps": [m["selector"] for m in meta],
-                           "requests": reqs, "_meta": meta, "_rmeta": rmeta, "_stream": stream,
+                           "requests": reqs, "_meta": meta, "_rmeta": rmeta, "_stream": stream, "_zip": None,
                            "_existing": existing_selectors(tree)})
+    # the same kinds of gophermaps INSIDE a ZIP archive, served through ZIP.ZIPHandler (a virtual file system)
+    nzip = {"wf": 20, "padded": 8, "raising": 4} if thorough else {"wf": 4, "padded": 2, "raising": 1}
+    GEN_PREFIX[0] = ZIPSEL.encode()
+    try:
+        for stream, cnt in nzip.items():
+            for wi in range(cnt):
+                maps, meta = {}, []
+                for depth, d in enumerate(DEPTH_DIRS):
+                    for is_file in (False, True):
+                        special = None
+                        if stream == "wf" and wi == 0:
+                            special = {(0, False): "bucktooth", (1, False): "minimal", (2, True): "minimal"}.get((depth, is_file))
+                        data = gen_map(rng, stream, depth, is_file, special)
+                        path = (d + "/" if d else "") + ("x.gophermap" if is_file else "gophermap")
+                        maps[path] = data
+                        sel = ZIPSEL + "/" + path if is_file else (ZIPSEL + "/" + d if d else ZIPSEL)
+                        meta.append({"selector": sel, "is_file": is_file, "depth": depth, "data": data, "stream": stream})
+                tree, members = zip_tree(maps)
+                reqs, rmeta = [], []
+                if stream != "raising":
+                    for mi, m in enumerate(meta):
+                        for proto in gen.PROTOCOLS:
+                            data, tls = gen.request_bytes(proto, m["selector"])
+                            reqs.append({"data": gen.lat(data), "tls": tls})
+                            rmeta.append((mi, proto, data, tls))
+                worlds.append({"op": "gm_world", "tree": tree, "config": ZCONFIG, "maps": [m["selector"] for m in meta],
+                               "requests": reqs, "_meta": meta, "_rmeta": rmeta, "_stream": stream, "_zip": ZIPSEL,
+                               "_existing": members})
+    finally:
+        GEN_PREFIX[0] = b""
     import time as _time
     t_impl0 = _time.time()
     wres = impl_run_parallel([{k: v for k, v in w.items() if not k.startswith("_")} for w in worlds],
@@ -768,7 +883,7 @@ def run(tier):
     wjobs = []                  # per world: (preamble, case literals, keys)
     stats = {"maps": 0, "lines": 0, "wf_lines": 0, "link_lines": 0, "info_lines": 0, "raising_maps": 0,
              "requests": 0, "oracle_entry_checks": 0, "oracle_protocol_checks": 0, "mapfile_relative_hits": 0,
-             "entry_list_cases": 0, "gopher_menu_cases": 0}
+             "entry_list_cases": 0, "gopher_menu_cases": 0, "zip_maps": 0, "link_target_checks": 0}
     EXC = {"IndexError": 0, "ValueError": 1}
     sample_comp = sample_e2e = None
     for w, r in zip(worlds, wres):
@@ -776,10 +891,16 @@ def run(tier):
         wcases, wkeys = [], []
         comps = r["res"]["components"]
 
-        def add_case(mi, m, obs, key):
+        wcfg = ZCONFIG if w["_zip"] else CONFIG
+
+        def add_case(mi, m, obs, key, w=w, wcases=wcases, wkeys=wkeys):
             for fixed in (True, False):
-                wcases.append("(%s, (((%s, %s), (c%d, ex)), %s))" % (coq_bool(fixed), coq_str(m["selector"]),
-                                                                    coq_bool(m["is_file"]), mi, obs))
+                if w["_zip"]:
+                    wcases.append("(%s, ((%s, ((%s, %s), (c%d, ex))), %s))" % (coq_bool(fixed), coq_str(w["_zip"]),
+                                                                             coq_str(m["selector"]), coq_bool(m["is_file"]), mi, obs))
+                else:
+                    wcases.append("(%s, (((%s, %s), (c%d, ex)), %s))" % (coq_bool(fixed), coq_str(m["selector"]),
+                                                                        coq_bool(m["is_file"]), mi, obs))
                 wkeys.append((fixed, key))
 
         for mi, (m, c) in enumerate(zip(w["_meta"], comps)):
@@ -788,10 +909,13 @@ def run(tier):
             lines = [u(l) for l in split_lines(m["data"])]
             stats["lines"] += len(lines)
             replay_base = {"selector": m["selector"], "is_mapfile": m["is_file"], "gophermap_latin1": lat(m["data"]),
-                           "tree": w["tree"], "config": CONFIG, "stream": m["stream"]}
+                           "tree": w["tree"], "config": wcfg, "stream": m["stream"], "inside_zip": w["_zip"]}
+            stats["zip_maps"] += bool(w["_zip"])
             if c["handler"] != "BuckGophermapHandler":
-                hit("selection", dict(replay_base, what="a gophermap was not handed to BuckGophermapHandler",
-                                      handler=c["handler"], exception=c["exc"]))
+                hit("selection:zip" if w["_zip"] else "selection",
+                    dict(replay_base, what="a gophermap was not handed to BuckGophermapHandler (the directory is not rendered "
+                                           "from its gophermap)", handler=c["handler"], outer_handler=c.get("outer"),
+                         exception=c["exc"]))
                 continue
             if c["exc"] is not None:
                 stats["raising_maps"] += 1
@@ -804,6 +928,14 @@ def run(tier):
                 ents = c["entries"]
                 obs = "obs_entries %s" % coq_list([coq_core(e["type"], e["name"], e["selector"], e["host"], e["port"],
                                                             e["gplus"]) for e in ents])
+                if w["_zip"]:
+                    # observation (not a C09 matter: the five documented fields are unaffected): VFSZip looks selectors that
+                    # lie OUTSIDE the archive up INSIDE it after chopping len(zip selector) characters, so such links can be
+                    # "populated" from an unrelated archive member and get the Gopher+ flag
+                    for e in ents:
+                        if e["gplus"] and not (e["selector"] == w["_zip"] or e["selector"].startswith(w["_zip"] + "/")):
+                            stats["zip_outside_links_populated_from_archive"] = stats.get("zip_outside_links_populated_from_archive", 0) + 1
+                            chk.notes.setdefault("zip_outside_link_example", {"gophermap_selector": m["selector"], "entry": e})
                 # ---- oracle 1: exactly one entry per line
                 if len(ents) != len(lines):
                     hit("entry-count", dict(replay_base, what="number of entries differs from number of gophermap lines",
@@ -856,13 +988,14 @@ def run(tier):
             m, c = w["_meta"][mi], comps[mi]
             ob = out["out"].encode("latin-1")
             replay = {"protocol": proto, "selector": m["selector"], "is_mapfile": m["is_file"], "request_latin1": gen.lat(data),
-                      "tls": tls, "gophermap_latin1": lat(m["data"]), "tree": w["tree"], "config": CONFIG,
-                      "response_latin1": out["out"][:1500], "exception": out["exc"]}
+                      "tls": tls, "gophermap_latin1": lat(m["data"]), "tree": w["tree"], "config": wcfg,
+                      "response_latin1": out["out"][:1500], "exception": out["exc"], "inside_zip": w["_zip"]}
             chk.count(("e2e", proto, m["selector"], m["data"]))
             if c["exc"] is not None or c["handler"] != "BuckGophermapHandler":
                 continue
             lines = [u(l) for l in split_lines(m["data"])]
-            ds, items = descriptions(proto, ob)
+            rits, items = rendered_items(proto, ob)
+            ds = None if rits is None else [d for d, _ in rits]
             stats["oracle_protocol_checks"] += 1
             names = [e["name"] for e in c["entries"]]
             if out["exc"] is not None or ds is None:
@@ -890,6 +1023,14 @@ def run(tier):
                         dict(replay, what="rendered description differs from the documented reading", line_index=i,
                              line=ln, documented=want[1], rendered=ds[i]))
                     break
+                why = target_problem(proto, want, rits[i][1])
+                stats["link_target_checks"] += 1
+                if why is not None:
+                    kind = "url" if re.match(r"/?URL:", want[2]) else ("local" if want[3] is None and want[4] is None else "remote")
+                    hit(f"link-target:{kind}:{proto}",
+                        dict(replay, what="the item does not lead where the documented reading of its gophermap line points: " + why,
+                             line_index=i, line=ln, documented=list(want), rendered_target=rits[i][1]))
+                    break
                 if items is not None:
                     it = items[i]
                     wantm = (want[0], want[1], want[2], want[3] if want[3] is not None else SRV,
@@ -913,11 +1054,12 @@ def run(tier):
                 if sample_e2e is None and body:
                     sample_e2e = {"kind": "end-to-end", "protocol": proto, "selector": m["selector"],
                                   "response_latin1": out["out"][:200]}
-        wjobs.append(("\n".join(pre), wcases, wkeys))
+        if wcases:
+            wjobs.append(("\n".join(pre), wcases, wkeys, "chk_zworld" if w["_zip"] else "chk_world"))
 
     # ---------------- histories in one long-lived process ----------------
     t_h0 = _time.time()
-    wjobs.extend(history_leg(chk, rng, thorough, hit, stats, scases, sel_cases))
+    wjobs.extend(j + ("chk_world",) for j in history_leg(chk, rng, thorough, hit, stats, scases, sel_cases))
     chk.notes["seconds_history_leg"] = round(_time.time() - t_h0, 1)
 
     # ---------------- K: model in Coq vs implementation ----------------
@@ -925,8 +1067,8 @@ def run(tier):
     t_coq0 = _time.time()
 
     def eval_world(arg):
-        k, (pre, wcases, wkeys) = arg
-        return coq_eval("C09", "k_world_%d" % k, IMPORTS, "chk_world", wcases, shard=100000, pre=pre)
+        k, (pre, wcases, wkeys, checker) = arg
+        return coq_eval("C09", "k_world_%d" % k, IMPORTS, checker, wcases, shard=100000, pre=pre)
 
     small = [("k_int", "chk_int", icases, 300), ("k_path", "chk_path", pcases, 400), ("k_select", "chk_select", scases, 400),
              ("k_twin", "chk_twin", tcases, 250)]
@@ -938,7 +1080,7 @@ def run(tier):
     errors = [e for e in (e_int, e_path, e_sel, et) if e]
     mis = {True: [], False: []}         # model variant -> mismatching keys
     nshards = n1 + n2 + n3 + n5
-    for (pre, wcases, wkeys), (mm, ee, ns) in zip(wjobs, world_out):
+    for (pre, wcases, wkeys, _checker), (mm, ee, ns) in zip(wjobs, world_out):
         nshards += ns
         if ee:
             errors.append(ee)
@@ -1006,6 +1148,12 @@ def run(tier):
         "HTML/WML/gemini/spartan renderings are read back by the harness (description texts only); their markup is C06/C13's subject",
         "well-formed (wf_gmline): one line, no white space at either end of any field or of an info line, 2..4 tab-separated fields, "
         "type + NON-EMPTY description, port empty or <= 4300 ASCII digits",
+        "ZIP leg: the same gophermap generators packed into /T.zip and served through ZIP.ZIPHandler (handler list with "
+        "ZIP.ZIPHandler, enabled); the model's file system is VFSZip.exists as it is: len(zip selector) characters are chopped off "
+        "ANY link selector before the archive index is consulted (K09.zip_inner), so links to selectors outside the archive are "
+        "looked up inside it; only UTF-8 member names",
+        "link targets: HTML HREF/ACTION, WML href, gemini/spartan URL are compared with the documented reading (URL after 'URL:', "
+        "percent-decoded local path = selector, gopher://host:port/type+selector); 'no host, port 0' is not checked",
         "history leg: DirHandler's own listing cache (.cache.pygopherd.dir) is switched off (cachetime = 0; C10's subject) so that "
         "only gophermap handling is observed; the reference is the same tree state served by a freshly forked process that never "
         "served a request; modification times are masked when responses are compared",
